@@ -897,7 +897,9 @@ func (t *ShelleyTransaction) MarshalCBOR() ([]byte, error) {
 		t.Body,
 		t.WitnessSet,
 	}
-	if t.TxMetadata != nil {
+	if t.auxData != nil && len(t.auxData.Cbor()) > 0 {
+		tmpObj = append(tmpObj, cbor.RawMessage(t.auxData.Cbor()))
+	} else if t.TxMetadata != nil {
 		tmpObj = append(tmpObj, cbor.RawMessage(t.TxMetadata.Cbor()))
 	} else {
 		tmpObj = append(tmpObj, nil)
